@@ -24,17 +24,18 @@ func init() {
 		Phases: func(tier string, seed int64) []Phase {
 			return []Phase{{Name: "pipelines", Run: c10Run}}
 		},
-		MinObserved: []string{"pipelines_checked", "requests_after_unbind_sent", "eof_withheld_until_release_observed"},
+		MinObserved: []string{"pipelines_checked", "requests_after_unbind_sent", "eof_withheld_until_release_observed", "pipelines_after_a_write_fault"},
 	})
 }
 
 type c10Case struct {
-	K, M      int
-	Mode      string // one-write per-frame dribble
-	Route     bool
-	Panics    bool // the registered unbind handler panics (recovered by gldap): the connection must still end
-	Parked    bool
-	Transport string
+	K, M       int
+	Mode       string // one-write per-frame dribble
+	Route      bool
+	Panics     bool // the registered unbind handler panics (recovered by gldap): the connection must still end
+	Parked     bool
+	Transport  string
+	WriteFault bool // the connection's write deadline has expired before the pipeline is sent: every response write fails
 }
 
 func c10Run(c *Ctx) {
@@ -52,7 +53,7 @@ func c10Run(c *Ctx) {
 								if parked && k == 0 {
 									continue
 								}
-								cases = append(cases, c10Case{k, m, mode, route > 0, route == 2, parked, tr})
+								cases = append(cases, c10Case{K: k, M: m, Mode: mode, Route: route > 0, Panics: route == 2, Parked: parked, Transport: tr})
 							}
 						}
 					}
@@ -64,8 +65,14 @@ func c10Run(c *Ctx) {
 	for _, k := range []int{63, 64, 65, 100, 300} {
 		for _, route := range []int{0, 1} {
 			for _, tr := range []string{"plain", "tls"} {
-				cases = append(cases, c10Case{k, 2, "one-write", route > 0, false, true, tr})
+				cases = append(cases, c10Case{K: k, M: 2, Mode: "one-write", Route: route > 0, Parked: true, Transport: tr})
 			}
+		}
+	}
+	// an earlier write fault on the connection (expired write deadline): responses are lost, the Unbind must still end it
+	for _, k := range []int{0, 1, 3} {
+		for _, route := range []int{0, 1} {
+			cases = append(cases, c10Case{K: k, M: 2, Mode: "one-write", Route: route > 0, Transport: "plain", WriteFault: true})
 		}
 	}
 	var next atomic.Int64
@@ -88,6 +95,10 @@ func c10Run(c *Ctx) {
 				}
 				srvs[tr] = s
 				defer s.StopWithin(patience)
+			}
+			if wf, err := startSrv(SrvCfg{WriteTimeout: 120 * time.Millisecond}, nil); err == nil {
+				srvs["writefault"] = wf
+				defer wf.StopWithin(patience)
 			}
 			for {
 				i := int(next.Add(1)) - 1
@@ -134,6 +145,12 @@ func c10One(c *Ctx, pki *PKI, srvs map[string]*Srv, cs c10Case, r *Rand, idx int
 	// one long-lived server per worker and transport; every case installs its own mux (routes are in place before the
 	// case's connection is accepted)
 	srv := srvs[cs.Transport]
+	if cs.WriteFault {
+		srv = srvs["writefault"]
+		if srv == nil {
+			return
+		}
+	}
 	m, _ := gldap.NewMux()
 	m.Bind(rec("bind"))
 	m.Search(rec("search"))
@@ -164,6 +181,10 @@ func c10One(c *Ctx, pki *PKI, srvs map[string]*Srv, cs c10Case, r *Rand, idx int
 		return
 	}
 	defer cl.Close()
+	if cs.WriteFault {
+		time.Sleep(300 * time.Millisecond) // the absolute write deadline set at accept has passed
+		c.Count("pipelines_after_a_write_fault", 1)
+	}
 	mkReq := func(id int64, after bool, i int) []byte {
 		name := "1.7.1"
 		if after {
@@ -291,7 +312,7 @@ func c10One(c *Ctx, pki *PKI, srvs map[string]*Srv, cs c10Case, r *Rand, idx int
 	mu.Lock()
 	defer mu.Unlock()
 	c.Count("pipelines_checked", 1)
-	c.Distinct("pipelines", fmt.Sprintf("%d/%d/%s/%v/%v/%v/%s", cs.K, cs.M, cs.Mode, cs.Route, cs.Panics, cs.Parked, cs.Transport))
+	c.Distinct("pipelines", fmt.Sprintf("%d/%d/%s/%v/%v/%v/%s/%v", cs.K, cs.M, cs.Mode, cs.Route, cs.Panics, cs.Parked, cs.Transport, cs.WriteFault))
 	seen := map[int64]int{}
 	for _, id := range dispatched {
 		seen[id]++
@@ -348,7 +369,7 @@ func c10One(c *Ctx, pki *PKI, srvs map[string]*Srv, cs c10Case, r *Rand, idx int
 		}
 	}
 	for id := range before {
-		if got[id] == 0 {
+		if got[id] == 0 && !cs.WriteFault {
 			c.Violate("an earlier request's response was lost when the connection ended", fmt.Sprintf("%v: id %d", cs, id), det)
 		}
 	}
